@@ -160,4 +160,4 @@ def case_st(draw, max_ops=30):
 
 
 def parts():
-    return [Part("histories", check, strategy=case_st(), strategy_thorough=case_st(max_ops=80), budget={"quick": 2400, "thorough": 80000})]
+    return [Part("histories", check, strategy=case_st(), strategy_thorough=case_st(max_ops=80), budget={"quick": 2400, "thorough": 80000}, fuzz={"thorough": 10000})]
